@@ -1,0 +1,56 @@
+//go:build verif
+
+package s2
+
+import (
+	"math/big"
+
+	"github.com/golang/geo/r3"
+)
+
+// Thin wrappers exporting the unexported stages of the predicates in predicates.go
+// to the verification harness (property C02). Add-only; no behaviour of the package changes.
+
+func VerifC02TriageSign(a, b, c Point) Direction    { return triageSign(a, b, c) }
+func VerifC02StableSign(a, b, c Point) Direction    { return stableSign(a, b, c) }
+func VerifC02ExpensiveSign(a, b, c Point) Direction { return expensiveSign(a, b, c) }
+func VerifC02ExactSign(a, b, c Point, perturb bool) Direction {
+	return exactSign(a, b, c, perturb)
+}
+
+// VerifC02SymbolicallyPerturbedSign calls symbolicallyPerturbedSign on the points as given
+// (the caller is responsible for the documented precondition: sorted, determinant zero).
+func VerifC02SymbolicallyPerturbedSign(a, b, c Point) Direction {
+	xa := r3.PreciseVectorFromVector(a.Vector)
+	xb := r3.PreciseVectorFromVector(b.Vector)
+	xc := r3.PreciseVectorFromVector(c.Vector)
+	return symbolicallyPerturbedSign(xa, xb, xc, xb.Cross(xc))
+}
+
+func VerifC02CosDistance(x, y Point) (float64, float64)  { return cosDistance(x, y) }
+func VerifC02Sin2Distance(x, y Point) (float64, float64) { return sin2Distance(x, y) }
+func VerifC02TriageCompareCosDistances(x, a, b Point) int {
+	return triageCompareCosDistances(x, a, b)
+}
+func VerifC02TriageCompareSin2Distances(x, a, b Point) int {
+	return triageCompareSin2Distances(x, a, b)
+}
+func VerifC02ExactCompareDistances(x, a, b Point) int {
+	return exactCompareDistances(r3.PreciseVectorFromVector(x.Vector), r3.PreciseVectorFromVector(a.Vector), r3.PreciseVectorFromVector(b.Vector))
+}
+func VerifC02SymbolicCompareDistances(x, a, b Point) int {
+	return symbolicCompareDistances(x, a, b)
+}
+func VerifC02TriageCompareCosDistance(x, y Point, r2 float64) int {
+	return triageCompareCosDistance(x, y, r2)
+}
+func VerifC02TriageCompareSin2Distance(x, y Point, r2 float64) int {
+	return triageCompareSin2Distance(x, y, r2)
+}
+func VerifC02ExactCompareDistance(x, y Point, r2 float64) int {
+	return exactCompareDistance(r3.PreciseVectorFromVector(x.Vector), r3.PreciseVectorFromVector(y.Vector), big.NewFloat(r2).SetPrec(big.MaxPrec))
+}
+func VerifC02TriageSignDotProd(a, b Point) int { return triageSignDotProd(a, b) }
+func VerifC02Ca45Degrees() float64             { return float64(ca45Degrees) }
+func VerifC02MaxDeterminantError() float64     { return maxDeterminantError }
+func VerifC02DetErrorMultiplier() float64      { return detErrorMultiplier }
